@@ -5,6 +5,7 @@ CONSTANTS
   ViewIds = {1, 2}
   MaxEvents = 4
   SharedSlot = FALSE
+  FlattenUnion = FALSE
   ArgAliased = FALSE
 INVARIANT ReadIsFilter
 INVARIANT SurvivorsInOrder
